@@ -68,6 +68,7 @@ func C15(c *Ctx) {
 		r.Check(uses, "C15-a", construct, "", g.Where(loop.Pos()), "the loop takes "+ic+" into account",
 			"the loop over "+src+" ignores "+ic+": the general path tests the folded rune against these members, the table tests the raw rune ([\\p{Lu}]i matches 'A' only with -optimize-basic-latin)")
 	}
+	basicLatinCaseClosure(c, "C15-a")
 	// ---- c
 	wc := load.FuncDecl(bp, "builder", "writeCharClassMatcher")
 	okEmit := false
@@ -168,4 +169,83 @@ func C15(c *Ctx) {
 		r.Check(ok, "C15-b", "T.parseCharClassMatcher:fast-path", v.Name, v.Where(pf.Pos()), "cur < 128 on the raw rune ⇒ table decision XOR inverted; otherwise the general path", detail)
 	}
 	r.Min("BasicLatinLookupTable variants", 8, nB)
+}
+
+// basicLatinCaseClosure: BasicLatinLookup receives the raw (un-lowered) members, while the general path compares the
+// lower-cased input with lower-cased members. For chars and ranges the table must therefore contain, under
+// ignoreCase, both the upper-case and the lower-case twin of every member: the stores under the ignoreCase guard
+// must use both unicode.ToUpper and unicode.ToLower (or unicode.SimpleFold) to compute indices.
+func basicLatinCaseClosure(c *Ctx, rule string) {
+	r := c.R
+	g := c.G()
+	if g == nil {
+		return
+	}
+	fd := load.FuncDecl(g.Pkg("builder"), "", "BasicLatinLookup")
+	if fd == nil {
+		r.Fatal("builder.BasicLatinLookup not found")
+		return
+	}
+	var params []string
+	for _, f := range fd.Type.Params.List {
+		for _, n := range f.Names {
+			params = append(params, n.Name)
+		}
+	}
+	if len(params) != 4 {
+		return
+	}
+	ic := params[3]
+	for i, src := range params[:2] {
+		var loop ast.Stmt
+		for _, st := range fd.Body.List {
+			switch x := st.(type) {
+			case *ast.RangeStmt:
+				if nospace(x.X) == src {
+					loop = x
+				}
+			case *ast.ForStmt:
+				if x.Cond != nil && strings.Contains(nospace(x.Cond), "len("+src+")") {
+					loop = x
+				}
+			}
+		}
+		construct := "G.builder.BasicLatinLookup:" + []string{"chars", "ranges"}[i] + "-loop-adds-both-cases"
+		if loop == nil {
+			r.Unk(rule, construct, "", g.Where(fd.Pos()), "member loop over "+src+" not found")
+			continue
+		}
+		up, low, fold, raw := false, false, false, false
+		ast.Inspect(loop, func(n ast.Node) bool {
+			as, ok := n.(*ast.AssignStmt)
+			if !ok || len(as.Lhs) != 1 {
+				return true
+			}
+			ix, ok := as.Lhs[0].(*ast.IndexExpr)
+			if !ok || !strings.HasSuffix(nospace(ix.X), "basicLatinChars") || nospace(as.Rhs[0]) != "true" {
+				return true
+			}
+			underIC := false
+			for _, gd := range guardsOf(loop, as.Pos()) {
+				if gd == ic || strings.HasPrefix(gd, ic+"&&") || strings.Contains(gd, "&&"+ic) {
+					underIC = true
+				}
+			}
+			idx := nospace(ix.Index)
+			switch {
+			case strings.Contains(idx, "unicode.ToUpper("):
+				up = up || underIC
+			case strings.Contains(idx, "unicode.ToLower("):
+				low = low || underIC
+			case strings.Contains(idx, "SimpleFold"):
+				fold = fold || underIC
+			default:
+				raw = true
+			}
+			return true
+		})
+		ok := raw && ((up && low) || fold)
+		r.Check(ok, rule, construct, "", g.Where(loop.Pos()), "the member itself plus, under "+ic+", both its upper-case and lower-case twin",
+			fmt.Sprintf("member stored=%t, upper-case twin under %s=%t, lower-case twin under %s=%t: the raw members are passed in, so a member written in one case lacks its twin in the other ([XYZ]i would not match x with -optimize-basic-latin)", raw, ic, up, ic, low))
+	}
 }
